@@ -124,6 +124,15 @@ def handleGraph (req : Json) : Except String Json := do
     | some (h', y) =>
       pure (Json.mkObj [("ok", true), ("result", shapeJson h' h.length y), ("written", natsJson (writtenOld h h')),
                         ("oldhooks", oldHooks h' h.length)])
+  | "graph.graft" => do
+    -- add to `holder` a copy of class `c` (find_class(copy=True) / deepcopy, then add_class)
+    let c ← req.getObjValAs? Nat "c"
+    let holder ← req.getObjValAs? Nat "holder"
+    match deepcopy cfg h c with
+    | none => pure (Json.mkObj [("ok", true), ("result", Json.null)])
+    | some (h1, y) =>
+      let h2 := applyEdit h1 (addClassEdit h1 holder y)
+      pure (Json.mkObj [("ok", true), ("result", shapeJson h2 h.length y), ("written", natsJson (writtenOld h h2))])
   | "graph.flatten" => do
     let root ← req.getObjValAs? Nat "root"
     let path ← getStrs req "path"
